@@ -253,7 +253,12 @@ impl TransactionManager {
             if *other_tx == tx_id {
                 continue;
             }
-            if other_info.state == TxState::Committed {
+            // Only a writer that committed after we started overlaps with us; one that
+            // committed before our start epoch is part of our snapshot and cannot conflict.
+            let overlaps = committed
+                .get(other_tx)
+                .is_none_or(|epoch| epoch.as_u64() > our_start_epoch.as_u64());
+            if other_info.state == TxState::Committed && overlaps {
                 // Check if any of our writes conflict with their writes
                 for entity in &our_write_set {
                     if other_info.write_set.contains(entity) {
